@@ -24,6 +24,12 @@ func c09Gen(g *G) {
 	// write error on an acknowledgement followed by several calls in flight
 	g.Emit("c09.run o,vl g0+1;w2;h;a1;^a0", "late-delivery")
 	g.Emit("c09.run o,o,b h;g0+1+2;w3;h;c(a2,a1z);^a0;^p", "late-delivery")
+	// a call with decoder hints whose first transmission is rejected (salt rotation): the repetition must be
+	// decodable as well; packed results whose unpacked size is exactly one, two, three inflater chunks
+	g.Emit("c09.run vl,vo,o g0+1+2;w3;r0/2000;r1/2000;w5;a2;a0z;a1", "hinted-call-resent")
+	g.Emit("c09.run vo,vl g0+1;w2;c(r1/2001,r0/2001);w4;c(a1z,a0)", "hinted-call-resent")
+	g.Emit("c09.run vl511,vl1023,vl510,o,b g0+1+2+3+4;w5;a0z;a1z;c(a2z,a3z);a4", "packed-size-multiple-of-4096")
+	g.Emit("c09.run vl1535,vl512 g0+1;w2;a1z;a0z", "packed-size-multiple-of-4096")
 	g.Emit("c09.run o,o,o,o g0;w1;fk:1;a0;j;g1+2+3;w4;a1;a2;a3", "fault-ack-write")
 	g.Emit("c09.run o,b,vl fk:2;n77;g0;w1;a0;j;g1+2;w3;c(a2z,a1)", "fault-ack-write")
 	n := g.N(60, 1500)
@@ -74,6 +80,15 @@ func c09Gen(g *G) {
 			all[j] = j
 		}
 		plan := []string{"g" + rsJoinInts("", all, "+"), fmt.Sprintf("w%d", k)}
+		if r.Intn(4) == 0 {
+			// some requests are rejected once (new salt) before they are answered
+			sub := rsPerm(r, k)[:1+r.Intn(k)]
+			salt := 2000 + r.Intn(1000)
+			for _, c := range sub {
+				plan = append(plan, fmt.Sprintf("r%d/%d", c, salt))
+			}
+			plan = append(plan, fmt.Sprintf("w%d", k+len(sub)))
+		}
 		plan = append(plan, rsAnswerPlan(r, order, []string{"p", "k"})...)
 		tag := "concurrent"
 		if r.Intn(4) == 0 {
